@@ -172,6 +172,8 @@ type retInfo struct {
 }
 
 type loopInfo struct {
+	writeRefs map[string]map[string]bool
+	preText   string
 	measure Val
 	header  *ssa.BasicBlock
 	blocks  map[*ssa.BasicBlock]bool
@@ -233,6 +235,8 @@ type VC struct {
 	prelude     []*preludeEntry
 	sentinels   []Term
 	flagsUsed   []string
+	writtenRefs map[string]map[string]bool
+	pendingRef  string
 	opaqueDefs  map[string]string
 	scriptHeader string
 	flagValues  map[string]bool
@@ -408,6 +412,22 @@ func (vc *VC) epochGet(ep *epoch, comp string) Term {
 func (vc *VC) heapSet(st *State, comp string, t Term) {
 	st.heap.known[comp] = t
 	vc.written[comp] = true
+	// a write that does not go through setRoot is not attributable to one reference
+	if vc.pendingRef == "" {
+		vc.noteWriteRef(comp, "*")
+	} else {
+		vc.noteWriteRef(comp, vc.pendingRef)
+	}
+}
+
+func (vc *VC) noteWriteRef(comp, ref string) {
+	if vc.writtenRefs == nil {
+		vc.writtenRefs = map[string]map[string]bool{}
+	}
+	if vc.writtenRefs[comp] == nil {
+		vc.writtenRefs[comp] = map[string]bool{}
+	}
+	vc.writtenRefs[comp][ref] = true
 }
 
 // registerComp declares the value sort of a heap component.
@@ -472,7 +492,9 @@ func (vc *VC) setRoot(st *State, p *Place, v Term) {
 		vc.heapSet(st, p.Comp, vc.define(p.Comp, v))
 	default:
 		h := vc.heapGet(st.heap, p.Comp)
+		vc.pendingRef = p.Ref.S
 		vc.heapSet(st, p.Comp, vc.define(p.Comp, tStore(h, p.Ref, v)))
+		vc.pendingRef = ""
 	}
 }
 
